@@ -70,30 +70,48 @@ def r1(repo, run):
         run.violation('C01.R1b', fi, 'deferred fill', 'no deferred fill is registered at all: containers wrapped while PyYAML is still constructing them lazily stay empty')
         return
     kinds = {}
+    verdicts = []
     for n, c in regs:
         facts = facts_at(g, n)
-        ok = ('deep', False) in facts and ('self.deep_construct', False) in facts
-        if ok:
-            run.ok('C01.R1', (fi.file, c.lineno, fi.qualname), unparse(c)[:90], 'only when PyYAML defers the fill (not deep and not self.deep_construct; fact from %s)' % os.path.basename(path))
-        else:
-            missing = [t for t in ('deep', 'self.deep_construct') if (t, False) not in facts]
-            run.violation('C01.R1', fi, unparse(c), 'a deferred fill is registered although PyYAML may already have filled the container (guard does not imply `not %s`): elements are added twice' % '` / `not '.join(missing), node=c)
         arg = c.args[0] if c.args else None
         filler = None
+        tail = False
         if isinstance(arg, ast.Call) and norm(arg.func) == 'self._make_generator' and len(arg.args) == 2:
-            filler = norm(arg.args[1])
+            f_ = arg.args[1]
+            filler = norm(f_)
+            if isinstance(f_, ast.Lambda) and len(f_.args.args) == 1 and isinstance(f_.body, ast.Call) and isinstance(f_.body.func, ast.Attribute) and f_.body.func.attr == 'extend' and len(f_.body.args) == 1:
+                v = f_.args.args[0].arg
+                w = norm(f_.body.func.value)
+                if norm(f_.body.args[0]) == '%s[len(%s):]' % (v, w):
+                    tail = True
+                    filler = '%s.extend (tail form: only the elements the wrapper does not hold yet)' % w
+        kind = None
         for t, pol in facts:
             if pol and t.startswith('isinstance(node, yaml.'):
-                kinds[t[len('isinstance(node, yaml.'):-1]] = (filler, c)
-    want = {'SequenceNode': 'aynode.extend', 'MappingNode': 'aynode.update'}
+                kind = t[len('isinstance(node, yaml.'):-1]
+                kinds[kind] = (filler, c, tail)
+        idempotent = tail or (filler is not None and filler.endswith('.update'))
+        guard_ok = ('deep', False) in facts and ('self.deep_construct', False) in facts
+        verdicts.append((n, c, kind, filler, idempotent, guard_ok))
+    for n, c, kind, filler, idempotent, guard_ok in verdicts:
+        if idempotent:
+            run.ok('C01.R1', (fi.file, c.lineno, fi.qualname), unparse(c)[:110], 'idempotent filler: a container PyYAML already filled (deep construction, alias) cannot receive its entries twice')
+        elif guard_ok and kind == 'SequenceNode':
+            run.violation('C01.R1d', fi, unparse(c), 'a wrapped sequence is later extended with the *complete* PyYAML list: when the same yaml node is reached again through an alias after it was filled, the wrapper (built from the full list) receives every element twice (a: &x [1, 2] / b: {c: *x} -> c: [1, 2, 1, 2]); the guard only excludes deep construction', node=c)
+        elif guard_ok:
+            run.ok('C01.R1', (fi.file, c.lineno, fi.qualname), unparse(c)[:90], 'only when PyYAML defers the fill (not deep and not self.deep_construct; fact from %s)' % os.path.basename(path))
+        else:
+            missing = [t for t in ('deep', 'self.deep_construct') if (t, False) not in facts_at(g, n)]
+            run.violation('C01.R1', fi, unparse(c), 'a non-idempotent deferred fill is registered although PyYAML may already have filled the container (guard does not imply `not %s`): elements are added twice' % '` / `not '.join(missing), node=c)
+    want = {'SequenceNode': 'extend', 'MappingNode': 'aynode.update'}
     for k, w in want.items():
         got = kinds.get(k)
         if got is None:
             run.violation('C01.R1b', fi, 'deferred fill for yaml.%s' % k, 'lazily constructed %s values are wrapped without registering their fill' % k)
-        elif got[0] != w:
+        elif (k == 'MappingNode' and got[0] != w) or (k == 'SequenceNode' and 'extend' not in (got[0] or '')):
             run.violation('C01.R1b', fi, unparse(got[1]), '%s is filled with %s (expected %s)' % (k, got[0], w), node=got[1])
         else:
-            run.ok('C01.R1b', (fi.file, got[1].lineno, fi.qualname), 'yaml.%s -> %s' % (k, w))
+            run.ok('C01.R1b', (fi.file, got[1].lineno, fi.qualname), 'yaml.%s -> %s' % (k, got[0]))
     mg = repo.func('AwesomeyamlLoader._make_generator')
     body = [norm(s) for s in mg.node.body]
     if body != ['yield', 'update_fn(value)']:
@@ -384,7 +402,9 @@ def check(repo, run, tier):
 
 def mutants(repo):
     return [
-        Mutant('F1-reverted-guard-without-deep_construct', lambda r: in_func(r, 'AwesomeyamlLoader.construct_object', "if not deep and not self.deep_construct and value is not aynode:", "if not deep and value is not aynode:"), ['C01.R1']),
+        Mutant('F19-reverted-full-list-refill', lambda r: in_func(r, 'AwesomeyamlLoader.construct_object', "lambda v: aynode.extend(v[len(aynode):])", "aynode.extend"), ['C01.R1d']),
+        Mutant('F1-and-F19-reverted', lambda r: {'awesomeyaml/yaml.py': in_func(r, 'AwesomeyamlLoader.construct_object', "lambda v: aynode.extend(v[len(aynode):])", "aynode.extend")['awesomeyaml/yaml.py'].replace("if not deep and not self.deep_construct and value is not aynode:", "if not deep and value is not aynode:")}, ['C01.R1']),
+        Mutant('neutral-F1-guard-redundant-with-tail-filler', lambda r: in_func(r, 'AwesomeyamlLoader.construct_object', "if not deep and not self.deep_construct and value is not aynode:", "if not deep and value is not aynode:"), neutral=True),
         Mutant('sequence-filler-dropped', lambda r: in_func(r, 'AwesomeyamlLoader.construct_object', "            if isinstance(node, yaml.SequenceNode):\n                self.state_generators.append(self._make_generator(value, aynode.extend))\n            elif isinstance(node, yaml.MappingNode):", "            if isinstance(node, yaml.MappingNode):"), ['C01.R1b']),
         Mutant('mapping-filled-with-extend', lambda r: in_func(r, 'AwesomeyamlLoader.construct_object', "self._make_generator(value, aynode.update)", "self._make_generator(value, aynode.extend)"), ['C01.R1b']),
         Mutant('tagged-mapping-constructed-lazily', lambda r: in_func(r, 'yaml._make_node', "loader.construct_mapping(node, deep=True)", "loader.construct_mapping(node)"), ['C01.R1c']),
